@@ -27,8 +27,11 @@ fn why_close(sc: &Scenario, a: &Analysis, j: usize, tagged: bool) -> &'static st
         "keep-alive-disabled"
     } else if prog.force_close {
         "handler-forced-close"
+    } else if t.has_body && matches!(prog.payload, PayloadPlan::RespondThenReadAllInBody | PayloadPlan::RespondWithExternalReader) {
+        // the response was produced before the body was read, but the application reads it afterwards
+        "own-payload-read-after-response"
     } else if t.has_body && prog.payload != PayloadPlan::ReadAllThenRespond {
-        "own-unread-payload"
+        "own-payload-never-read"
     } else if a.stream.truths.iter().skip(j + 1).any(|x| x.has_body) {
         "later-request-unread-payload"
     } else {
@@ -82,7 +85,7 @@ pub fn check(sc: &Scenario, ex: &Exec, a: &Analysis) -> Vec<Violation> {
                     Some(pos) => buffered(ex, a, pos, j + 1),
                     None => "n/a",
                 };
-                v.push(viol(P, "a", &format!("bytes-after-closing-response:{why}:{how}"), format!(
+                v.push(viol(P, "a", &format!("bytes-after-closing-response:{why}:{how}:{}", family(sc)), format!(
                     "response #{j} (status {}) announced the end of the connection ({why}) but {} more bytes were written after it{}",
                     r.status, ex.io.out.len() - r.end, if more { format!(" (another response, status {})", finals[j + 1].status) } else { String::new() })));
             }
@@ -91,7 +94,7 @@ pub fn check(sc: &Scenario, ex: &Exec, a: &Analysis) -> Vec<Violation> {
         let produced_at = ex.log.iter().position(|e| matches!(e, Event::Responded { handler, .. } if Some(*handler) == r.tag()));
         if let Some(pos) = produced_at {
             if let Some((n, d)) = a.dispatched.iter().enumerate().find(|(_, d)| d.log_index > pos) {
-                v.push(viol(P, "b", &format!("dispatch-after-closing-response:{why}:{}", buffered(ex, a, pos, n)), format!(
+                v.push(viol(P, "b", &format!("dispatch-after-closing-response:{why}:{}:{}", buffered(ex, a, pos, n), family(sc)), format!(
                     "request #{n} ({} {}) was dispatched after the handler of request #{j} had produced the response that announces close ({why})",
                     d.method, d.target)));
             }
@@ -105,6 +108,12 @@ pub fn check(sc: &Scenario, ex: &Exec, a: &Analysis) -> Vec<Violation> {
         }
     }
     v
+}
+
+/// The scenario family: the scenario name without its configuration component, so that a known
+/// finding names the specific history (requests, payload plan, arrival pattern) that fails.
+fn family(sc: &Scenario) -> String {
+    sc.name.replace("/os/", "/").replace("/linger/", "/").replace("/nohalf/", "/").replace(' ', "")
 }
 
 /// Had the head of request `n` already been taken from the socket when the closing response was
